@@ -10,8 +10,9 @@ use crate::op::{Op, K};
 use crate::sinks::*;
 use acpi_tables::aml::*;
 use acpi_tables::{Aml, AmlSink};
+use zerocopy::IntoBytes;
 
-pub const N_SELECTORS: u64 = 51;
+pub const N_SELECTORS: u64 = 57;
 
 fn seg(b: &[u8], i: usize) -> String {
     // a legal 4-character name segment [A-Z_][A-Z0-9_]{3}
@@ -64,7 +65,12 @@ pub fn produce(op: &Op, depth: usize, cx: &mut Cx) -> Result<Vec<u8>, Caught> {
     cx.cover("c14.aml_constructors", sel);
     let a3 = op.arg(3);
     let a4 = op.arg(4);
-    let mut run = |obj: &dyn Aml, cx: &mut Cx| -> Result<Vec<u8>, Caught> {
+    let run_raw = |obj: &dyn Aml, raw: Option<&[u8]>, cx: &mut Cx| -> Result<Vec<u8>, Caught> {
+        let reference = catch(|| to_vec(obj))?;
+        crate::exec::c14_object(obj, raw, &reference, K::AmObj, cx);
+        Ok(reference)
+    };
+    let run = |obj: &dyn Aml, cx: &mut Cx| -> Result<Vec<u8>, Caught> {
         let reference = catch(|| to_vec(obj))?;
         crate::exec::c14_object(obj, None, &reference, K::AmObj, cx);
         if op.arg(5) % 5 == 0 {
@@ -218,12 +224,96 @@ pub fn produce(op: &Op, depth: usize, cx: &mut Cx) -> Result<Vec<u8>, Caught> {
                 run(&Uuid::new(&s), cx)
             }
             49 => run(&PowerResource::new(path(op), a3 as u8, a4 as u16, refs.clone()), cx),
-            _ => run(&crate::build::gas_at(op, 3), cx),
+            // structures that have both a raw in-memory form and a serialiser
+            50 => {
+                let g = crate::build::gas_at(op, 3);
+                run_raw(&g, Some(g.as_bytes()), cx)
+            }
+            51 => {
+                use acpi_tables::hest::*;
+                let n = NotificationStructure::new(notif(op.arg(3)))
+                    .conf_write_en(op.arg(4) as u16)
+                    .poll_interval_ms(op.arg(7) as u32)
+                    .vector(op.arg(8) as u32)
+                    .polling_threshold_value((op.arg(7) >> 32) as u32)
+                    .polling_threshold_window_ms((op.arg(8) >> 32) as u32)
+                    .error_threshold_value((op.arg(3) >> 32) as u32)
+                    .error_threshold_window_ms((op.arg(4) >> 32) as u32);
+                run_raw(&n, Some(n.as_bytes()), cx)
+            }
+            52 => {
+                let r = acpi_tables::rqsc::CacheResource::new(a3 as u32);
+                run_raw(&r, Some(r.as_bytes()), cx)
+            }
+            53 => {
+                let r = acpi_tables::rqsc::MemoryAffinityStructureResource::new(a3 as u32, a4);
+                run_raw(&r, Some(r.as_bytes()), cx)
+            }
+            54 => {
+                let r = acpi_tables::rqsc::ACPIDeviceResource::new(a3, a4 as u32);
+                run_raw(&r, Some(r.as_bytes()), cx)
+            }
+            55 => {
+                let r = acpi_tables::rqsc::PCIDeviceResource::new(a3 as u32);
+                run_raw(&r, Some(r.as_bytes()), cx)
+            }
+            _ => {
+                // a generic-error status block with data entries (HEST error records)
+                use acpi_tables::hest::*;
+                let sev = |v: u64| match v % 4 {
+                    0 => ErrorSeverity::Recoverable,
+                    1 => ErrorSeverity::Fatal,
+                    2 => ErrorSeverity::Correctable,
+                    _ => ErrorSeverity::None,
+                };
+                let mut d = GenericErrorData::new(sev(a3));
+                d.section_type = a4 as u16;
+                d.revision = (a4 >> 16) as u16;
+                d.validation = (a4 >> 32) as u8;
+                d.flags = (a4 >> 40) as u8;
+                d.error_data_length = op.arg(7) as u32;
+                for k in &kids {
+                    d.add_data(Box::new(OwnedBytes(k.clone())));
+                }
+                let _ = GenericErrorStatus::new(a3 as u32 % 3, (a3 >> 8) as u32 % 3, sev(a3 >> 16));
+                run(&d, cx)
+            }
         }
     });
     match mk {
         Ok(r) => r,
         Err(e) => Err(e),
+    }
+}
+
+struct OwnedBytes(Vec<u8>);
+impl Aml for OwnedBytes {
+    fn to_aml_bytes(&self, sink: &mut dyn AmlSink) {
+        for b in &self.0 {
+            sink.byte(*b);
+        }
+    }
+}
+
+fn notif(v: u64) -> acpi_tables::hest::NotificationType {
+    use acpi_tables::hest::NotificationType::*;
+    match v % 16 {
+        0 => Polled,
+        1 => ExternalIrq,
+        2 => LocalIrq,
+        3 => Sci,
+        4 => Nmi,
+        5 => Cmci,
+        6 => Mce,
+        7 => GpioSignal,
+        8 => Armv8Sea,
+        9 => Armv8Sei,
+        10 => ExternalGsiv,
+        11 => SoftwareException,
+        12 => RiscvSupervisorSoftwareEvent,
+        13 => RiscvLowPriorityRasInterrupt,
+        14 => RiscvHighPriorityRasInterrupt,
+        _ => RiscvHardwareErrorException,
     }
 }
 
